@@ -1,0 +1,56 @@
+//go:build verif
+
+package compiler
+
+import (
+	"fmt"
+
+	"github.com/open2b/scriggo/ast"
+)
+
+// VerifLexProgram runs the program lexer exactly as the parser does
+// (scanProgram, lexer goroutine) and returns every token it sends. A run
+// time panic in the lexer goroutine terminates the process.
+func VerifLexProgram(src []byte) VerifLexResult {
+	lex := scanProgram(src)
+	var res VerifLexResult
+	for tok := range lex.Tokens() {
+		res.Tokens = append(res.Tokens, verifDump(tok))
+	}
+	verifErr(&res, lex.error())
+	return res
+}
+
+// VerifLexProgramRecover is VerifLexProgram with the scan run in a goroutine
+// that recovers: a run time panic of the scan is reported in Panic together
+// with the tokens sent before it. The construction of the lexer repeats
+// scanProgram; the harness compares the two functions on every input that
+// does not panic.
+func VerifLexProgramRecover(src []byte) VerifLexResult {
+	tokens := make(chan token, 20)
+	lex := &lexer{
+		text:   src,
+		src:    src,
+		line:   1,
+		column: 1,
+		ctx:    ast.ContextText,
+		tokens: tokens,
+	}
+	var res VerifLexResult
+	go func() {
+		defer func() {
+			if r := recover(); r != nil {
+				res.Panic = fmt.Sprint(r)
+				close(tokens)
+			}
+		}()
+		lex.scan()
+	}()
+	for tok := range tokens {
+		res.Tokens = append(res.Tokens, verifDump(tok))
+	}
+	if res.Panic == "" {
+		verifErr(&res, lex.err)
+	}
+	return res
+}
